@@ -89,7 +89,67 @@ def mkcl(pairs, bits):
     if len(d) == 1:
         return next(iter(d))
     items = tuple(sorted(d.items()))
+    if len(items) <= 8:
+        gs = [g for _, g in items]
+        for i in range(len(gs)):
+            for j in range(i + 1, len(gs)):
+                a, b = gs[i].id, gs[j].id
+                EXCL.add((a, b) if a < b else (b, a))
     return mk('cl', bits, items, len(items))
+
+
+# pairs of guard node ids known to be mutually exclusive (guards of one guarded-constant set)
+EXCL = set()
+_CONJ = {}
+
+
+def conjuncts(x, limit=400):
+    """ids of the conjuncts of a nested and-chain (cached); atoms are kept as they are"""
+    r = _CONJ.get(x.id)
+    if r is not None:
+        return r
+    out = {}
+    stack = [x]
+    while stack:
+        e = stack.pop()
+        if e.op == 'and' and e.bits == 1:
+            for a in e.args:
+                if isinstance(a, E):
+                    c = _CONJ.get(a.id)
+                    if c is not None and a.op == 'and':
+                        out.update(c)
+                    else:
+                        stack.append(a)
+        else:
+            out[e.id] = e
+        if len(out) > limit:
+            break
+    _CONJ[x.id] = out
+    return out
+
+
+def contradicts(x, y):
+    """cheap syntactic proof that x and y cannot both hold (sound, incomplete)"""
+    if is_c(x) or is_c(y):
+        return (is_c(x) and x == 0) or (is_c(y) and y == 0)
+    cx, cy = conjuncts(x), conjuncts(y)
+    if len(cy) > len(cx):
+        cx, cy = cy, cx
+    if len(cy) > 24:
+        return False
+    for i, e in cy.items():
+        # negation present on the other side?
+        if e.op == 'not':
+            if e.args[0].id in cx:
+                return True
+        else:
+            n = _TAB.get(('not', 1, ('e', i)))
+            if n is not None and n.id in cx:
+                return True
+        for j in cx:
+            if ((i, j) if i < j else (j, i)) in EXCL:
+                return True
+    return False
 
 
 def ite(c, a, b, bits):
@@ -205,10 +265,17 @@ def map_cl(f, x, obits):
     if is_c(x):
         return f(x)
     if obits == 1:
-        r = 0
-        for v, g in x.args:
-            if f(v) & 1:
+        yes = [g for v, g in x.args if f(v) & 1]
+        no = [g for v, g in x.args if not f(v) & 1]
+        # the guards are exhaustive: express the predicate through the smaller side
+        if len(no) < len(yes):
+            r = 0
+            for g in no:
                 r = or_(r, g, 1)
+            return not_(r)
+        r = 0
+        for g in yes:
+            r = or_(r, g, 1)
         return r
     return mkcl([(f(v), g) for v, g in x.args], obits)
 
